@@ -248,6 +248,14 @@ def bytes_like_wrapped(sh, rng, prog, T, raw):
     nt = typing.NewType("Blob", T)
     forms = [("NewType", nt), ("Final", typing.Final[T]), ("alias", typing.TypeAliasType("BlobAlias", T)), ("NewType.NewType", typing.NewType("Blob2", nt)),
              ("name", T.__name__), ("qualified", f"{prog.name}.{name}"), ("ForwardRef", typing.ForwardRef(name, module=prog.name))]
+    # string-valued aliases defined in the module itself (their text is resolved there): of T, of another string-valued alias, of a NewType
+    ns = prog.module.__dict__
+    exec(compile(f"import typing\n_c02s1 = typing.TypeAliasType('_c02s1', '{name}')\n_c02s2 = typing.TypeAliasType('_c02s2', '_c02s1')\n"
+                 f"_c02s3 = typing.TypeAliasType('_c02s3', '_c02s2')\n_c02n = typing.NewType('_c02n', {name})\n"
+                 f"_c02s4 = typing.TypeAliasType('_c02s4', '_c02n')\n",
+                 f"/verif/out/generated/{prog.name}_c02b.py", "exec", dont_inherit=True), ns)
+    forms += [("stralias", ns["_c02s1"]), ("stralias.stralias", ns["_c02s2"]), ("stralias.stralias.stralias", ns["_c02s3"]),
+              ("stralias.NewType", ns["_c02s4"]), ("NewType.stralias", typing.NewType("Blob3", ns["_c02s2"]))]
     how, W = rng.choice(forms)
     carrier = rng.choice([bytes, bytearray, memoryview])
     sh.count("bytes_types_wrapped_checked")
